@@ -76,19 +76,38 @@ class DftCase:
     def impl_text(self, kind):
         if kind == "wake":
             return "wake " + self._setup_text()
+        if kind == "wakeseq":
+            more = self.calls[1:]
+            t = "wakeseq " + self._setup_text() + "%d\n" % len(more)
+            btw = getattr(self, "between", None) or ["W"] * len(self.calls)
+            for k, profs in enumerate(more):
+                t += btw[k + 1] + " " + " ".join(fhex(v) for pr in profs for v in pr) + "\n"
+            return t
         if kind == "csrmb":
             pre = getattr(self, "pre", [])
             t = "csrmb " + self._setup_text() + fhex(self.cutoff) + "\n%d\n" % len(pre)
             for k, profs in pre:
                 t += "%s %s\n" % (k, " ".join(fhex(v) for pr in profs for v in pr))
             return t
-        return "csr " + self._setup_text() + fhex(self.cutoff) + "\n"
+        warm = getattr(self, "warm", None) or []
+        return "csr " + self._setup_text() + fhex(self.cutoff) + "\n%d\n" % len(warm) + \
+            "".join(" ".join(fhex(v) for pr in profs for v in pr) + "\n" for profs in warm)
 
     def bunch_case(self, b):
-        """the single-bunch case 'bunch b alone at padded offset 0' (what C07_multibunch_spectrum_row says row b is)"""
-        c = DftCase("%s_b%d" % (self.cid, b), self.N, self.n, self.n, [0], self.zre, self.zim, [self.prof[b]], self.axes, self.phys,
+        """the single-bunch case 'bunch b alone' (what C07_multibunch_spectrum_row says row b is: the bunch at padded
+        offset 0); the wake loss of the bunch is taken on an object that holds it in its own bucket (same bucket
+        number and spacing), which is what `buckets`/`s` of the returned case say"""
+        c = DftCase("%s_b%d" % (self.cid, b), self.N, self.n, self.s, [self.buckets[b]], self.zre, self.zim, [self.prof[b]], self.axes, self.phys,
                     note=self.note, cutoff=self.cutoff)
         c.passive = getattr(self, "passive", False)
+        return c
+
+    def call_case(self, k):
+        """call k of a sequence of wakePotential() calls on one object, as a wake case of its own: by
+        C06_generated_wake_is_convolution the result is that of a fresh object given the profiles of call k"""
+        c = DftCase("%s@%d" % (self.cid, k), self.N, self.n, self.s, self.buckets, self.zre, self.zim, self.calls[k], self.axes, self.phys,
+                    note=self.note)
+        c.seq = (self, k)
         return c
 
     def model_cells(self):
@@ -124,11 +143,28 @@ class DftCase:
                     cutoff=self.cutoff, z0=[fhex(self.zre[0]), fhex(self.zim[0])])
 
     def replay(self, kind="wake"):
+        if getattr(self, "seq", None) is not None and kind == "wake":
+            par, k = self.seq
+            d = par.replay("wakeseq")
+            d["call"] = k
+            return d
+        if kind == "wakeseq":
+            d = self.replay("wake")
+            d["kind"] = "wakeseq"
+            d["calls"] = [[[fhex(v) for v in pr] for pr in profs] for profs in self.calls]
+            d["between"] = getattr(self, "between", None) or ["W"] * len(self.calls)
+            return d
         if kind == "csrmb":
             d = self.replay("csr")
             d["kind"] = "csrmb"
             d["pre"] = [dict(op=k, prof=[[fhex(v) for v in pr] for pr in profs]) for k, profs in getattr(self, "pre", [])]
             return d
+        if kind == "csr" and getattr(self, "warm", None):
+            d = dict(self.replay("csr-"), kind="csr")
+            d["warm"] = [[[fhex(v) for v in pr] for pr in profs] for profs in self.warm]
+            return d
+        if kind == "csr-":
+            kind = "csr"
         return dict(kind=kind, id=self.cid, N=self.N, n=self.n, spacing=self.s, buckets=self.buckets,
                     note=self.note, axes={k: fhex(v) for k, v in self.axes.items()},
                     phys={k: fhex(v) for k, v in self.phys.items()}, cutoff=fhex(self.cutoff),
@@ -230,6 +266,164 @@ def _impedance(rng, N, kind):
     return zre, zim
 
 
+BANDS = ("full", "half", "trailing", "leading", "interior", "lead+trail", "boundary", "sparse")
+
+
+def _apply_band(rng, N, zre, zim, band):
+    """EXACT zeros in the impedance table.  full: none (non-zero on the whole range 0..N-1); half: given on the half range
+    0..N/2 only (zero above); trailing: band-limited, zero from some k0 < N/2 on (an impedance file that lists fewer
+    harmonics than N/2); leading: zero below some k1 (Z_0 included); interior: a stop band inside (0, N/2); lead+trail:
+    a pass band strictly inside; boundary: non-zero only in the cells N/2-1, N/2, N/2+1 (and Z_0 in half of the cases);
+    sparse: every cell zero with probability 1/2.  At least one cell below N/2 stays non-zero."""
+    h = N // 2
+    zre, zim = list(zre), list(zim)
+    keep = [True] * N
+    if band == "half":
+        keep = [k <= h for k in range(N)]
+    elif band == "trailing":
+        k0 = rng.randint(1, max(1, h - 1))
+        keep = [k < k0 for k in range(N)]
+    elif band == "leading":
+        k1 = rng.randint(1, max(1, h - 1))
+        keep = [k >= k1 for k in range(N)]
+    elif band == "interior":
+        k1 = rng.randint(1, max(1, h - 2))
+        k2 = rng.randint(k1 + 1, max(k1 + 1, h - 1))
+        keep = [not (k1 <= k < k2) for k in range(N)]
+    elif band == "lead+trail":
+        k1 = rng.randint(1, max(1, h - 2))
+        k2 = rng.randint(k1 + 1, max(k1 + 1, h - 1))
+        keep = [k1 <= k < k2 for k in range(N)]
+    elif band == "boundary":
+        z0 = rng.random() < 0.5
+        keep = [(k in (h - 1, h, h + 1)) or (k == 0 and z0) for k in range(N)]
+    elif band == "sparse":
+        keep = [rng.random() < 0.5 for k in range(N)]
+    if not any(keep[k] and (zre[k] != 0 or zim[k] != 0) for k in range(h)):
+        k = rng.randrange(h)
+        keep[k] = True
+        if zre[k] == 0 and zim[k] == 0:
+            zre[k] = 1.0
+    for k in range(N):
+        if not keep[k]:
+            zre[k], zim[k] = 0.0, 0.0
+    return zre, zim
+
+
+def _layout_main(rng, N, nbmax=4):
+    """bucket numbers as main() derives them from a filling pattern: entry i of the pattern is bucket
+    (pattern length - 1 - i), so the list is descending and a pattern whose LAST entries are empty ({1,0}, {1,0,0},
+    {1,0,1,0}) has its lowest filled bucket above 0"""
+    lo, hi = max(8, -(-N // 8)), min(32, N)
+    n = rng.randint(min(lo, hi), hi)
+    for _ in range(50):
+        s = n + rng.choice([0, 1, 2, 3, 5, n // 2, n])
+        L = (N - n) // s + 1            # longest admissible pattern
+        if L >= 2:
+            break
+    else:
+        return None
+    L = rng.randint(2, min(L, 6))
+    tail = rng.choice([0, 1, 1, 2]) if L > 2 else rng.choice([0, 1])     # empty entries at the end of the pattern
+    tail = min(tail, L - 1)
+    pat = [1 if (i == 0 or rng.random() < 0.6) else 0 for i in range(L - tail)] + [0] * tail
+    pat[L - tail - 1] = 1
+    bks = [L - 1 - i for i, f in enumerate(pat) if f]
+    if len(bks) > nbmax:
+        bks = bks[:1] + sorted(rng.sample(bks[1:-1], nbmax - 2), reverse=True) + bks[-1:] if nbmax >= 2 else bks[-1:]
+    return n, s, bks
+
+
+def _layout_end(rng, N, nbmax=4):
+    """the window of the highest bucket ends at (or one/two cells before) the end of the padded range"""
+    lo, hi = max(8, -(-N // 8)), min(32, N)
+    for _ in range(50):
+        n = rng.randint(min(lo, hi), hi)
+        top = rng.randint(1, 4)
+        r = rng.choice([0, 0, 1, 2])
+        if (N - n - r) % top == 0 or rng.random() < 0.5:
+            s = (N - n - r) // top
+        else:
+            continue
+        if s < n or top * s + n > N:
+            continue
+        nb = rng.randint(1, min(nbmax, top + 1))
+        bks = [top] + rng.sample(range(top), nb - 1)
+        o = rng.random()
+        if o < 0.4:
+            bks.sort(reverse=True)
+        elif o < 0.6:
+            bks.sort()
+        else:
+            rng.shuffle(bks)
+        return n, s, bks
+    return None
+
+
+def layout(rng, N, nbmax=4):
+    """-> (n, s, buckets, kind): random (any order, empty buckets), main (numbered like main() does, often with the
+    lowest filled bucket above 0), end (train reaching the end of the padded range), low (lowest bucket forced >= 1)"""
+    kind = rng.choice(["random", "random", "main", "main", "end", "low"])
+    r = None
+    if kind == "main":
+        r = _layout_main(rng, N, nbmax)
+    elif kind == "end":
+        r = _layout_end(rng, N, nbmax)
+    elif kind == "low":
+        n, s, bks = _layout(rng, N, nbmax)
+        mb = (N - n) // s
+        if mb >= len(bks):
+            bks2 = rng.sample(range(1, mb + 1), len(bks))
+            if bks == sorted(bks, reverse=True):
+                bks2.sort(reverse=True)
+            r = (n, s, bks2)
+    if r is None:
+        kind = "random"
+        r = _layout(rng, N, nbmax)
+    return r[0], r[1], r[2], kind
+
+
+def count_coverage(ctx, pre, N, n, s, bks, band, mixed=False, ncalls=1):
+    """coverage counters reported in the evidence (one line per category the brief of the case generators names)"""
+    h = N // 2
+    ctx.count(pre + ":N-odd" if N % 2 else pre + ":N-even")
+    ctx.count(pre + ":N-power-of-two" if N & (N - 1) == 0 else pre + ":N-not-power-of-two")
+    ctx.count(pre + ":impedance-band=" + band)
+    if band == "full":
+        ctx.count(pre + ":impedance-on-full-range")
+    if band == "half":
+        ctx.count(pre + ":impedance-on-half-range")
+    if band == "boundary":
+        ctx.count(pre + ":only-the-N/2-boundary-bins")
+    if min(bks) > 0:
+        ctx.count(pre + ":lowest-filled-bucket-not-0")
+    if min(bks) * s > 0:
+        ctx.count(pre + ":first-bunch-not-at-cell-0")
+    if max(bks) * s + n >= N - 2:
+        ctx.count(pre + ":train-reaches-end-of-padded-range")
+    if len(bks) > 1:
+        ctx.count(pre + ":multibunch")
+        if mixed:
+            ctx.count(pre + ":multibunch-different-profile-kinds")
+    if max(bks) + 1 > len(bks):
+        ctx.count(pre + ":empty-buckets")
+    if ncalls > 1:
+        ctx.count(pre + ":calls-on-one-object=%d" % ncalls)
+
+
+PROFILE_KINDS = ["random", "signed", "impulse", "int", "gauss", "narrow"]
+
+
+def _profiles(rng, n, nb):
+    """one profile per bunch: the same kind for all in half of the cases, a kind of its own per bunch otherwise
+    (the draws always differ) -> (profiles, kinds, mixed)"""
+    if nb > 1 and rng.random() < 0.5:
+        kinds = [rng.choice(PROFILE_KINDS) for _ in range(nb)]
+    else:
+        kinds = [rng.choice(PROFILE_KINDS)] * nb
+    return [_profile(rng, n, k) for k in kinds], kinds, len(set(kinds)) > 1
+
+
 def _layout(rng, N, nbmax=4):
     """n, spacing, buckets with bucket*s + n <= N, N <= 8n, s >= n, empty buckets, any order"""
     lo, hi = max(8, -(-N // 8)), min(32, N)
@@ -258,21 +452,71 @@ def gen_wake_cases(ctx, count, sizes, prefix="w"):
     cases = []
     for i in range(count):
         N = sizes[i % len(sizes)] if i < 2 * len(sizes) else rng.choice(sizes)
-        n, s, bks = _layout(rng, N)
+        n, s, bks, lk = layout(rng, N)
         zk = rng.choice(["random", "random", "passive", "smooth"])
-        zre, zim = _impedance(rng, N, zk)
-        pk = rng.choice(["random", "signed", "impulse", "int", "gauss", "narrow"])
-        prof = [_profile(rng, n, pk) for _ in bks]
+        band = rng.choice(["full", "full", "full"] + list(BANDS))
+        zre, zim = _apply_band(rng, N, *_impedance(rng, N, zk), band)
+        prof, pks, mixed = _profiles(rng, n, len(bks))
         axes, phys = _axes_phys(rng)
-        c = DftCase("%s%d" % (prefix, i), N, n, s, bks, zre, zim, prof, axes, phys, note="%s/%s" % (zk, pk))
+        c = DftCase("%s%d" % (prefix, i), N, n, s, bks, zre, zim, prof, axes, phys, note="%s[%s]/%s/%s" % (zk, band, "+".join(pks), lk))
         cases.append(c)
         ctx.count("wake:N=%d" % N)
         ctx.count("wake:nb=%d" % len(bks))
-        ctx.count("wake:profile=" + pk)
+        ctx.count("wake:profile=" + pks[0])
         ctx.count("wake:impedance=" + zk)
-        if max(bks) + 1 > len(bks):
-            ctx.count("wake:empty-buckets")
+        ctx.count("wake:layout=" + lk)
+        count_coverage(ctx, "cover-wake", N, n, s, bks, band, mixed)
     return cases
+
+
+def gen_wakeseq_cases(ctx, count, sizes, prefix="s"):
+    """2-3 wakePotential() calls on ONE object with changing profiles (the last one sometimes the first again, or empty);
+    impedances mostly with exact zeros (band-limited, stop band, leading zeros, single cells), so that a cell of the loss
+    spectrum the code does not rewrite on a later call would show.  Every call is judged by the direct-DFT oracle."""
+    rng = ctx.rng
+    cases = []
+    for i in range(count):
+        N = sizes[i % len(sizes)] if i < len(sizes) else rng.choice(sizes)
+        n, s, bks, lk = layout(rng, N)
+        zk = rng.choice(["random", "random", "passive", "smooth"])
+        band = rng.choice(["trailing", "trailing", "trailing", "interior", "leading", "lead+trail", "sparse", "boundary", "half", "full"])
+        zre, zim = _apply_band(rng, N, *_impedance(rng, N, zk), band)
+        ncalls = rng.choice([2, 2, 3])
+        calls, kinds, mixed = [], [], False
+        for k in range(ncalls):
+            pr, pks, mx = _profiles(rng, n, len(bks))
+            calls.append(pr)
+            kinds.append("+".join(pks))
+            mixed = mixed or mx
+        if ncalls == 3 and rng.random() < 0.3:
+            calls[2] = [list(pr) for pr in calls[0]]          # the first profiles again
+            kinds[2] = "first-again"
+        elif rng.random() < 0.1:
+            calls[-1] = [[0.0] * n for _ in bks]               # an empty last call
+            kinds[-1] = "zero"
+        axes, phys = _axes_phys(rng)
+        c = DftCase("%s%d" % (prefix, i), N, n, s, bks, zre, zim, calls[0], axes, phys,
+                    note="%s[%s]/%s/%s" % (zk, band, " ; ".join(kinds), lk))
+        c.calls = calls
+        # what else is called on the object between two wakePotential() calls: mostly nothing, sometimes updateCSR(0) or
+        # padBunchProfiles() with the new profiles (interleavings as such belong to C18; here only the wake is judged)
+        c.between = ["W"] + [rng.choice(["W", "W", "W", "C", "P"]) for _ in calls[1:]]
+        cases.append(c)
+        for bt in c.between[1:]:
+            ctx.count("wakeseq:between-calls=" + {"W": "nothing", "C": "updateCSR", "P": "padBunchProfiles"}[bt])
+        ctx.count("wakeseq:N=%d" % N)
+        ctx.count("wakeseq:nb=%d" % len(bks))
+        ctx.count("wakeseq:impedance=" + zk)
+        ctx.count("wakeseq:layout=" + lk)
+        count_coverage(ctx, "cover-wakeseq", N, n, s, bks, band, mixed, ncalls)
+    return cases
+
+
+def call_record(r, k):
+    """the part of a parsed wakeseq record that belongs to call k, shaped like a wake record"""
+    d = {t: v for t, v in r.items() if t != "calls"}
+    d.update(r["calls"][k])
+    return d
 
 
 def gen_relation_groups(ctx, count, sizes, prefix="r"):
@@ -282,8 +526,10 @@ def gen_relation_groups(ctx, count, sizes, prefix="r"):
     groups = []
     for i in range(count):
         N = rng.choice(sizes)
-        n, s, bks = _layout(rng, N, nbmax=3)
+        n, s, bks, _lk = layout(rng, N, nbmax=3)
         zre, zim = _impedance(rng, N, rng.choice(["random", "passive"]))
+        if i % 3 != 2 and rng.random() < 0.3:      # (the 'half' relation changes the upper cells itself)
+            zre, zim = _apply_band(rng, N, zre, zim, rng.choice(BANDS))
         axes, phys = _axes_phys(rng)
         kind = ["lin", "shift", "half"][i % 3]
         mk = lambda tag, prof, zr=zre, zi=zim: DftCase("%s%d%s" % (prefix, i, tag), N, n, s, bks, zr, zi, prof, axes, phys, note=kind)
@@ -329,24 +575,40 @@ def gen_csr_cases(ctx, count, sizes, prefix="c"):
         N = sizes[i % len(sizes)] if i < len(sizes) else rng.choice(sizes)
         lo, hi = max(8, -(-N // 8)), min(32, N)
         n = rng.randint(min(lo, hi), hi)
-        s = n + rng.choice([0, 1, 4])
-        bk = rng.choice([0, 0, 1, 2])
-        if bk * s + n > N:
-            bk = 0
+        s = n + rng.choice([0, 1, 4, n // 2, n])
+        mb = (N - n) // s               # largest admissible bucket number
+        # the bunch sits in bucket 0 in a third of the cases only: a filling pattern with empty entries at its end
+        # ({1,0}, {1,0,0}: main() numbers the buckets from the end of the pattern) puts the only bunch in bucket 1, 2, ...
+        bk = rng.choice([0, 0, 1, 1, 2, 3, mb, mb])
+        if bk > mb:
+            bk = mb
+        if bk >= 1 and rng.random() < 0.3:
+            s = (N - n - rng.choice([0, 0, 1])) // bk      # the window of the bunch ends at the end of the padded range
+            if s < n:
+                s = n + 1 if bk * (n + 1) + n <= N else n
+            if bk * s + n > N:
+                bk = (N - n) // s
         zk = rng.choice(["passive", "passive", "smooth", "random"])
-        zre, zim = _impedance(rng, N, zk)
+        band = rng.choice(["full", "full", "full", "full"] + list(BANDS))
+        zre, zim = _apply_band(rng, N, *_impedance(rng, N, zk), band)
         pk = rng.choice(["random", "gauss", "impulse", "signed", "int"])
         prof = [_profile(rng, n, pk)]
         axes, phys = _axes_phys(rng)
-        c0 = DftCase("%s%da" % (prefix, i), N, n, s, [bk], zre, zim, prof, axes, phys, note="%s/%s" % (zk, pk))
-        c1 = DftCase("%s%db" % (prefix, i), N, n, s, [bk], zre, zim, prof, axes, phys, note="%s/%s" % (zk, pk),
+        c0 = DftCase("%s%da" % (prefix, i), N, n, s, [bk], zre, zim, prof, axes, phys, note="%s[%s]/%s" % (zk, band, pk))
+        c1 = DftCase("%s%db" % (prefix, i), N, n, s, [bk], zre, zim, prof, axes, phys, note="%s[%s]/%s" % (zk, band, pk),
                      cutoff=-1.0)          # filled in by the runner: needs the frequency axis
         c1.cut_frac = rng.uniform(0.15, 1.2)
         c0.passive = c1.passive = zk in ("passive", "smooth")
+        if rng.random() < 0.4:
+            # the object that gives the wake for Parseval has served 1-2 other profiles before
+            c0.warm = c1.warm = [[_profile(rng, n, rng.choice(["random", "signed", "int", "gauss"]))] for _ in range(rng.choice([1, 1, 2]))]
+            ctx.count("csr:wake-object-with-%d-earlier-calls" % len(c0.warm))
         cases.append((c0, c1))
         ctx.count("csr:N=%d" % N)
         ctx.count("csr:impedance=" + zk)
         ctx.count("csr:profile=" + pk)
+        ctx.count("csr:bucket=%s" % (bk if bk < 3 else ">=3"))
+        count_coverage(ctx, "cover-csr", N, n, s, [bk], band)
     return cases
 
 
@@ -359,6 +621,7 @@ def gen_csrmb_cases(ctx, count, sizes, prefix="m"):
     for i in range(count):
         N = sizes[i % len(sizes)] if i < len(sizes) else rng.choice(sizes)
         nb = rng.choice([1, 2, 2, 3, 3])
+        low = rng.random() < 0.35
         for _ in range(100):
             lo, hi = max(4, -(-N // 8)), min(32, N)
             n = rng.randint(min(lo, hi), hi)
@@ -367,6 +630,8 @@ def gen_csrmb_cases(ctx, count, sizes, prefix="m"):
             else:
                 s = rng.choice([n, n + 1, n + 3, max(1, n // 2), 1])
             bks = rng.sample(range(0, nb + 2), nb)
+            if low:
+                bks = rng.sample(range(1, nb + 3), nb)      # lowest filled bucket above 0 (pattern ending in empty entries)
             o = rng.random()
             if o < 0.4:
                 bks.sort(reverse=True)
@@ -377,7 +642,8 @@ def gen_csrmb_cases(ctx, count, sizes, prefix="m"):
         else:
             n, s, bks = min(8, N), 0, list(range(nb))
         zk = rng.choice(["passive", "passive", "smooth", "random"])
-        zre, zim = _impedance(rng, N, zk)
+        band = rng.choice(["full", "full", "full", "full"] + list(BANDS))
+        zre, zim = _apply_band(rng, N, *_impedance(rng, N, zk), band)
         pks = [rng.choice(["random", "gauss", "impulse", "signed", "int", "narrow"]) for _ in bks]
         prof = [_profile(rng, n, pk) for pk in pks]
         if nb > 1 and rng.random() < 0.2:
@@ -386,8 +652,8 @@ def gen_csrmb_cases(ctx, count, sizes, prefix="m"):
         pre = []
         for _ in range(rng.choice([0, 0, 1, 2, 3])):
             pre.append((rng.choice("WPC"), [_profile(rng, n, rng.choice(["random", "signed", "int"])) for _ in bks]))
-        c0 = DftCase("%s%da" % (prefix, i), N, n, s, bks, zre, zim, prof, axes, phys, note="%s/%s" % (zk, "+".join(pks)))
-        c1 = DftCase("%s%db" % (prefix, i), N, n, s, bks, zre, zim, prof, axes, phys, note="%s/%s" % (zk, "+".join(pks)), cutoff=-1.0)
+        c0 = DftCase("%s%da" % (prefix, i), N, n, s, bks, zre, zim, prof, axes, phys, note="%s[%s]/%s" % (zk, band, "+".join(pks)))
+        c1 = DftCase("%s%db" % (prefix, i), N, n, s, bks, zre, zim, prof, axes, phys, note="%s[%s]/%s" % (zk, band, "+".join(pks)), cutoff=-1.0)
         c1.cut_frac = rng.uniform(0.15, 1.2)
         c0.pre = c1.pre = pre
         c0.passive = c1.passive = zk in ("passive", "smooth")
@@ -396,6 +662,7 @@ def gen_csrmb_cases(ctx, count, sizes, prefix="m"):
         ctx.count("csrmb:spacing=" + ("zero" if s == 0 else "nonzero"))
         ctx.count("csrmb:history=%d" % len(pre))
         ctx.count("csrmb:impedance=" + zk)
+        count_coverage(ctx, "cover-csrmb", N, n, s, bks, band, len(set(pks)) > 1)
     return cases
 
 
@@ -407,6 +674,7 @@ def _fl(tokens):
 
 def parse_impl(rec):
     r = {}
+    ncalls = max([len(v) for v in rec.values()] or [1])
     for k, v in rec.items():
         if k == "nmax":
             r[k] = int(v[0][0])
@@ -414,13 +682,25 @@ def parse_impl(rec):
             continue
         else:
             r[k] = _fl(v[0])
+    if ncalls > 1:          # wakeseq: line j of a repeated tag belongs to call j
+        r["calls"] = [{k: _fl(v[j]) for k, v in rec.items() if len(v) == ncalls and k != "nmax" and not k.startswith("[")}
+                      for j in range(ncalls)]
     return r
 
 
-def run_impl(ctx, text):
+def run_impl(ctx, text, cases=None, kind=None):
+    """cases/kind (optional): the case objects `text` was made of - when the harness dies, the first case that kills it
+    by itself is reported as a failing input (the implementation crashed on it) before the error is raised"""
     tg = ctx.build(harness=("impl_dft",))
     rc, out, err = run_driver(tg["impl_dft"], text, env=vp_build.xdg_env(), timeout=1800)
     if rc != 0:
+        for c in (cases or []):
+            rc1, _, err1 = run_driver(tg["impl_dft"], c.impl_text(kind), env=vp_build.xdg_env(), timeout=600)
+            if rc1 != 0:
+                ctx.violation("impl-oracle", "the implementation does not survive this input (harness exit status %d%s)"
+                              % (rc1, ": killed by signal %d" % -rc1 if rc1 < 0 else ""), case=c.replay(kind),
+                              observed=err1[-400:], sig=dict(kind=kind, clause="crash"))
+                break
         raise RuntimeError("impl_dft failed rc=%d: %s" % (rc, err[-2000:]))
     return {k: parse_impl(v) for k, v in parse_cases(out).items()}
 
